@@ -58,6 +58,10 @@ func planC14entry(c *Ctx, run int64) *Plan {
 		// the damage applied to the document, if any
 		n := nodes[1+r.IntN(len(nodes)-1)]
 		op.S2 = n.Ptr
+		if Chance(r, 0.2) {
+			// the envelope's own members are few among hundreds of pointers; damage them more often
+			op.S2 = Pick(r, []string{"/doc", "/head", "/$schema", "/sigs", "/doc/$schema", "/doc/lines", "/doc/supplier", "/head/uuid"})
+		}
 		op.S3 = Pick(r, []string{"", "remove", "null", "retype", "setstr", "emptyobj", "emptyarr", "dupelem", "delelem"})
 		op.I = int64(r.IntN(1 << 20))
 		op.J = int64(r.IntN(12))
@@ -112,13 +116,6 @@ func execC14entry(x *X) {
 		var docOnly []byte = data
 		if t, err := ParseJV(data); err == nil && t.Get("doc") != nil && t.Get("doc").K == 'o' {
 			docOnly = t.Get("doc").Encode(nil)
-		}
-		if x.faultClass == "nullelem" && (op.S == "bulk-damaged" || op.S == "bulk") {
-			// the null-array-element class is a known crash; inside a bulk worker it takes the child
-			// process down every time, which teaches nothing new and costs a restart
-			x.Probe("known-crash-class-not-sent-through-bulk")
-			x.faultClass = ""
-			continue
 		}
 		where := fmt.Sprintf("%s %s on %s (damage %s at %s)", op.K, op.S, d.Name, op.S3, op.S2)
 		x.Case(fmt.Sprintf("%s|%s|%s|%s|%s", d.Name, op.K, op.S, op.S3, op.S2))
